@@ -40,6 +40,16 @@ theorem C03_strict_chunks (A : Aead) (hA : A.Lawful) (key aad : Bytes) (hk : key
   obtain ⟨init, l, hmap, hser, hall, hlast, hinit⟩ := decLoop_strict A key aad (hA.soundAt hk) cs fuel ctr inp ws h
   exact ⟨init ++ [l], hmap, hser, hall, ⟨init, l, rfl, hlast, hinit⟩, by simp⟩
 
+/-- **C03 (strict framing, converse).**  Every byte string of the shape described by `C03_strict_chunks` is
+    accepted and releases exactly its plaintexts — so that shape is *exactly* the accepted set. -/
+theorem C03_strict_chunks_exact (A : Aead) (hA : A.Lawful) (key aad : Bytes) (hk : key.length = 32) (cs : Nat)
+    (hcs : cs < 2^32) (ctr : Nat) (init : List (Bytes × Bytes × Bytes)) (l : Bytes × Bytes × Bytes)
+    (hall : ∀ h ∈ init ++ [l], h.1.length = 8 ∧ h.2.1.length = 4 ∧ h.2.2.length ≤ cs)
+    (hl : beVal l.2.1 = 1) (hinit : ∀ h ∈ init, beVal h.2.1 ≠ 1) :
+    decLoop A key aad cs (rawSerialize A key aad ctr (init ++ [l])).length ctr
+      (rawSerialize A key aad ctr (init ++ [l])) = ((init ++ [l]).map (·.2.2), .ok) :=
+  decLoop_rawSerialize A hA key aad hk cs hcs l hl init ctr _ hall hinit (Nat.le_refl _)
+
 /-! ### the reduction for the chunk stream -/
 
 /-- **C03 (chunks; reduction, single bad event = forgery under the file key).**
@@ -294,5 +304,202 @@ theorem C03_strict_file (P : Prims) (hP : P.Lawful) (r rpk F' S' : Bytes) (ws : 
       rw [h] at this; exact absurd rfl this
   · have := (keyDecrypt_bad_magic P r rpk F' hm).2.1
     rw [h] at this; exact absurd rfl this
+
+/-! ### truncation and extension of the authentic stream, outright
+
+  For the *authentic* stream itself these two manipulations are rejected without any bad-event disjunct: every record
+  the decryptor gets to open is an honest one, and the failure is a framing failure. -/
+
+/-- **C03 (truncation, outright).**  Every proper prefix of the authentic stream is rejected (read error), and
+    whatever was released before the error is a prefix of the authentic chunks *excluding the last one*. -/
+theorem C03_truncation_outright (A : Aead) (hA : A.Lawful) (key aad : Bytes) (hk : key.length = 32) (cs : Nat)
+    (hcs : cs < 2^32) (cl : List Bytes) (hne : cl ≠ []) (hle : ∀ c ∈ cl, c.length ≤ cs)
+    (F' : Bytes) (hpre : F' <+: serialize A key aad be64 0 cl) (hprop : F' ≠ serialize A key aad be64 0 cl) :
+    (decryptChunks A key aad cs F').2 = .ioRead ∧ (decryptChunks A key aad cs F').1 <+: cl.dropLast :=
+  decLoop_serialize_prefix A hA key aad hk cs hcs be64 be64_length cl 0 F'.length F' hne hle hpre hprop
+
+/-- **C03 (extension, outright).**  The authentic stream followed by any non-empty `t` is rejected
+    (`unexpectedData`); the last chunk is *not* released. -/
+theorem C03_extension_outright (A : Aead) (hA : A.Lawful) (key aad : Bytes) (hk : key.length = 32) (cs : Nat)
+    (hcs : cs < 2^32) (cl : List Bytes) (hne : cl ≠ []) (hle : ∀ c ∈ cl, c.length ≤ cs)
+    (t : Bytes) (ht : t ≠ []) :
+    decryptChunks A key aad cs (serialize A key aad be64 0 cl ++ t) = (cl.dropLast, .unexpectedData) :=
+  decLoop_serialize_append A hA key aad hk cs hcs be64 be64_length t ht cl 0 _ hne hle
+    (by rw [List.length_append]; omega)
+
+/-! ### non-vacuity -/
+
+/-! #### an AEAD for which `NoForgeryFrom` provably holds (and `SoundAt`, but necessarily not `Lawful.dec_enc`) -/
+
+def tblCl : List Bytes := [[1,2],[3],[4,5,6]]
+def tblAad : Bytes := [9]
+def tblMark : Bytes := List.replicate 16 0xAA
+
+/-- table-backed AEAD: `dec` opens only the three honest records of `tblCl` (under any key) -/
+def tableAead : Aead where
+  enc _ _ _ p := p ++ tblMark
+  dec _ n ad c :=
+    if 16 ≤ c.length ∧ c.drop (c.length - 16) = tblMark ∧ (n, ad, c.take (c.length - 16)) ∈ honest tblAad 0 tblCl
+    then some (c.take (c.length - 16)) else none
+
+theorem tableAead_soundAt (key : Bytes) : tableAead.SoundAt key where
+  enc_length := by intro n ad p; simp [tableAead, tblMark]
+  dec_sound := by
+    intro n ad c p h
+    simp only [tableAead] at h ⊢
+    split at h
+    · rename_i hc
+      simp only [Option.some.injEq] at h
+      rw [← h, ← hc.2.1, List.take_append_drop]
+    · simp at h
+
+theorem tableAead_noForgery (key : Bytes) : NoForgeryFrom tableAead key tblAad 0 tblCl := by
+  intro n ad c p h _
+  simp only [tableAead] at h
+  split at h
+  · rename_i hc
+    simp only [Option.some.injEq] at h
+    rw [← h]; exact hc.2.2
+  · simp at h
+
+/-- the authentic stream for `tblCl` -/
+def tblF : Bytes := serialize tableAead (zeros 32) tblAad be64 0 tblCl
+
+/-- every hypothesis of `C03_chunks_nf` / `C04_release_nf` is met by `tableAead` and a three-chunk list -/
+example (F' : Bytes) (ws : List Bytes) (res : Res) (h : decryptChunks tableAead (zeros 32) tblAad 8 F' = (ws, res)) :
+    ws <+: tblCl ∧ (res = .ok → ws = tblCl ∧ ∃ cf : Nat → Bytes, (∀ i, (cf i).length = 8) ∧
+      F' = serialize tableAead (zeros 32) tblAad cf 0 tblCl) :=
+  C03_chunks_nf tableAead (zeros 32) tblAad (tableAead_soundAt _) 8 tblCl (by decide) (by decide)
+    (tableAead_noForgery _) F' ws res h
+
+/-- both outcomes occur: the authentic stream is accepted … -/
+example : decryptChunks tableAead (zeros 32) tblAad 8 tblF = (tblCl, .ok) := by decide
+/-- … with any counter bytes … -/
+example : decryptChunks tableAead (zeros 32) tblAad 8 (serialize tableAead (zeros 32) tblAad (fun _ => zeros 8) 0 tblCl)
+    = (tblCl, .ok) := by decide
+/-- … a stream with one body byte of record 1 altered is rejected after releasing only chunk 0 … -/
+example : decryptChunks tableAead (zeros 32) tblAad 8 (tblF.set 50 0) = ([[1,2]], .auth) := by decide
+/-- … an altered flag field of record 0 is rejected with nothing released … -/
+example : decryptChunks tableAead (zeros 32) tblAad 8 (tblF.set 11 1) = ([], .auth) := by decide
+/-- … dropping record 1 (reordering the nonces) is rejected … -/
+example : decryptChunks tableAead (zeros 32) tblAad 8 (tblF.take 34 ++ tblF.drop 67) = ([[1,2]], .auth) := by decide
+/-- … a truncated stream is rejected, an extended stream is rejected. -/
+example : decryptChunks tableAead (zeros 32) tblAad 8 (tblF.take 70) = ([[1,2],[3]], .ioRead) := by decide
+example : decryptChunks tableAead (zeros 32) tblAad 8 (tblF ++ [0]) = ([[1,2],[3]], .unexpectedData) := by decide
+
+/-! #### a `Lawful` AEAD: hypotheses of the per-input reductions and of the strictness theorems -/
+
+/-- the authentic stream for `tblCl` under the (lawful, keyless) toy AEAD of C01 -/
+def toyF : Bytes := serialize toyPrims.aead (zeros 32) tblAad be64 0 tblCl
+
+/-- hypotheses of `C03_chunks` (and of `C03_length`, `C03_truncation`, `C03_extension`, `C04_release`) are satisfiable -/
+example (F' : Bytes) (ws : List Bytes) (res : Res) (h : decryptChunks toyPrims.aead (zeros 32) tblAad 8 F' = (ws, res)) :
+    ForgeryIn toyPrims.aead (zeros 32) tblAad 0 tblCl F' ∨
+    (ws <+: tblCl ∧ (res = .ok → ws = tblCl ∧ ∃ cf : Nat → Bytes, (∀ i, (cf i).length = 8) ∧
+      F' = serialize toyPrims.aead (zeros 32) tblAad cf 0 tblCl)) :=
+  C03_chunks toyPrims.aead toyPrims_lawful.aead (zeros 32) tblAad (by decide) 8 tblCl (by decide) (by decide) F' ws res h
+
+/-- the second disjunct occurs: the authentic stream is accepted, a tampered one rejected … -/
+example : decryptChunks toyPrims.aead (zeros 32) tblAad 8 toyF = (tblCl, .ok) := by decide
+example : decryptChunks toyPrims.aead (zeros 32) tblAad 8 (toyF.set 20 1) = ([], .auth) := by decide
+/-- … and the first disjunct cannot be dropped: the toy AEAD is forgeable, and a forged stream *is* accepted with
+    a different plaintext.  (This is why the theorem is a reduction.) -/
+example : decryptChunks toyPrims.aead (zeros 32) tblAad 8 (serialize toyPrims.aead (zeros 32) tblAad be64 0 [[7]])
+    = ([[7]], .ok) := by decide
+
+/-- hypothesis of `C03_strict_chunks` is satisfiable (an accepted input exists), and its conclusion instantiated -/
+example : ∃ hs : List (Bytes × Bytes × Bytes),
+    hs.map (·.2.2) = tblCl ∧ toyF = rawSerialize toyPrims.aead (zeros 32) tblAad 0 hs ∧
+    (∀ h ∈ hs, h.1.length = 8 ∧ h.2.1.length = 4 ∧ h.2.2.length ≤ 8) ∧
+    (∃ init l, hs = init ++ [l] ∧ beVal l.2.1 = 1 ∧ ∀ h ∈ init, beVal h.2.1 ≠ 1) ∧ hs ≠ [] :=
+  C03_strict_chunks toyPrims.aead toyPrims_lawful.aead (zeros 32) tblAad (by decide) 8 toyF.length 0 toyF tblCl
+    (by decide)
+
+/-- the flag field really is free apart from "= 1 / ≠ 1" when no AD pinning is available: flag bytes `00 00 00 02`
+    on a non-final record are accepted by the decryptor (this is what `rawSerialize` allows and `serialize` does not;
+    under `NoForgeryFrom`/¬`ForgeryIn` the AD pins them to `be32 0`). -/
+example : decLoop toyPrims.aead (zeros 32) tblAad 8 100 0
+    (rawSerialize toyPrims.aead (zeros 32) tblAad 0 [(zeros 8, [0,0,0,2], [1,2]), (zeros 8, [0,0,0,1], [3])])
+    = ([[1,2],[3]], .ok) := by decide
+
+/-- outright truncation / extension: hypotheses satisfiable -/
+example : (decryptChunks toyPrims.aead (zeros 32) tblAad 8 (toyF.take 40)).2 = .ioRead ∧
+    (decryptChunks toyPrims.aead (zeros 32) tblAad 8 (toyF.take 40)).1 <+: tblCl.dropLast :=
+  C03_truncation_outright toyPrims.aead toyPrims_lawful.aead (zeros 32) tblAad (by decide) 8 (by decide) tblCl
+    (by decide) (by decide) (toyF.take 40) (List.take_prefix _ _) (by decide)
+example : decryptChunks toyPrims.aead (zeros 32) tblAad 8 (toyF ++ [5]) = (tblCl.dropLast, .unexpectedData) :=
+  C03_extension_outright toyPrims.aead toyPrims_lawful.aead (zeros 32) tblAad (by decide) 8 (by decide) tblCl
+    (by decide) (by decide) [5] (by decide)
+
+/-! #### whole files -/
+
+def smallReads : List Bytes := [[1,2,3], [4], []]
+
+theorem smallReads_wf : wellFormedReads smallReads := by
+  refine ⟨fun h => absurd h (by decide), fun _ => ⟨fun h => absurd h (by decide), fun _ => ⟨fun _ => rfl, fun _ => trivial⟩⟩⟩
+
+theorem smallReads_le : ∀ c ∈ smallReads, c.length ≤ chunkSize := by decide
+
+theorem toy_kdf_length (pw salt : Bytes) : (toyPrims.kdf pw salt).length = 32 := by
+  simp [toyPrims, zeros]; omega
+
+/-- hypotheses of `C03_file_pass` / `C04_release_pass` are satisfiable: empty password, F' = F with a byte appended -/
+example (ws : List Bytes) (res : Res)
+    (h : passDecrypt toyPrims [] ((passEncrypt toyPrims [] (zeros 32) smallReads).1 ++ [0]) = (ws, res)) :
+    ForgeryIn toyPrims.aead (toyPrims.kdf [] (zeros 32)) encPassMagic 0 (fileChunks smallReads)
+      (((passEncrypt toyPrims [] (zeros 32) smallReads).1 ++ [0]).drop 36) ∨
+    (ws <+: fileChunks smallReads ∧
+      (res = .ok → ws = fileChunks smallReads ∧ ∃ cf : Nat → Bytes, (∀ i, (cf i).length = 8) ∧
+        (passEncrypt toyPrims [] (zeros 32) smallReads).1 ++ [0] =
+          encPassMagic ++ zeros 32 ++
+            serialize toyPrims.aead (toyPrims.kdf [] (zeros 32)) encPassMagic cf 0 (fileChunks smallReads))) :=
+  C03_file_pass toyPrims toyPrims_lawful.aead [] (zeros 32) smallReads (by decide) (toy_kdf_length _ _)
+    smallReads_wf smallReads_le _ (by decide) ws res h
+
+/-- hypotheses of `C03_file_key` / `C04_release_key` are satisfiable (keys of the C01 example), F' = F -/
+example (ws : List Bytes) (res : Res) (snd : Option Bytes)
+    (h : keyDecrypt toyPrims (List.replicate 32 1) (List.replicate 32 1)
+      (keyEncrypt toyPrims (zeros 32) (zeros 32) (List.replicate 32 1) (List.replicate 32 2) (List.replicate 32 2)
+        (List.replicate 32 7) smallReads).1 = (ws, res, snd)) :
+    ∃ msg hh, Noise.writeMessage toyPrims encPrologue (zeros 32) (zeros 32) (List.replicate 32 1) (List.replicate 32 2)
+        (List.replicate 32 2) (List.replicate 32 7) = .ok (msg, hh) ∧
+    (ForgeryIn toyPrims.aead (toyPrims.hkdfFile (List.replicate 32 7) hh) [] 0 (fileChunks smallReads)
+      ((keyEncrypt toyPrims (zeros 32) (zeros 32) (List.replicate 32 1) (List.replicate 32 2) (List.replicate 32 2)
+        (List.replicate 32 7) smallReads).1.drop 132) ∨
+    (ws <+: fileChunks smallReads ∧ (res ≠ .ok → snd = none) ∧
+      (res = .ok → ws = fileChunks smallReads ∧ snd = some (zeros 32) ∧ ∃ cf : Nat → Bytes, (∀ i, (cf i).length = 8) ∧
+        (keyEncrypt toyPrims (zeros 32) (zeros 32) (List.replicate 32 1) (List.replicate 32 2) (List.replicate 32 2)
+          (List.replicate 32 7) smallReads).1 =
+          encPrologue ++ msg ++ serialize toyPrims.aead (toyPrims.hkdfFile (List.replicate 32 7) hh) [] cf 0
+            (fileChunks smallReads)))) := by
+  obtain ⟨d1, h1, h1'⟩ := (toy_dhAgree (zeros 32) (List.replicate 32 1) (List.replicate 32 2)).es
+  obtain ⟨d2, h2, h2'⟩ := (toy_dhAgree (zeros 32) (List.replicate 32 1) (List.replicate 32 2)).ss
+  have hw := Noise.writeMessage_ok_named toyPrims encPrologue (zeros 32) (zeros 32) (List.replicate 32 1)
+    (List.replicate 32 2) (List.replicate 32 2) (List.replicate 32 7) d1 d2 h1 h2
+  exact ⟨_, _, hw, C03_file_key toyPrims toyPrims_lawful _ _ _ _ _ _ _ d1 d2 _ _ smallReads
+    (List.length_replicate ..) (List.length_replicate ..) (List.length_replicate ..) h1 h2 h1' h2'
+    smallReads_wf smallReads_le hw _ rfl ws res snd h⟩
+
+/-- hypotheses of `C03_strict_file_pass` and `C03_strict_file` are satisfiable: accepted files exist -/
+example : ∃ F ws, passDecrypt toyPrims [] F = (ws, .ok) ∧ (toyPrims.kdf [] ((F.drop 4).take 32)).length = 32 := by
+  obtain ⟨ct, _, h, _⟩ := passDecrypt_passEncrypt toyPrims toyPrims_lawful.aead [] (zeros 32) smallReads (by decide)
+    (toy_kdf_length _ _) smallReads_wf smallReads_le
+  exact ⟨ct, _, h, toy_kdf_length _ _⟩
+
+example : ∃ F ws S', keyDecrypt toyPrims (List.replicate 32 1) (List.replicate 32 1) F = (ws, .ok, some S') := by
+  obtain ⟨d1, h1, h1'⟩ := (toy_dhAgree (zeros 32) (List.replicate 32 1) (List.replicate 32 2)).es
+  obtain ⟨d2, h2, h2'⟩ := (toy_dhAgree (zeros 32) (List.replicate 32 1) (List.replicate 32 2)).ss
+  obtain ⟨ct, _, h, _⟩ := keyDecrypt_keyEncrypt toyPrims toyPrims_lawful (zeros 32) (zeros 32) (List.replicate 32 1)
+    (List.replicate 32 1) (List.replicate 32 2) (List.replicate 32 2) (List.replicate 32 7) d1 d2 smallReads
+    (List.length_replicate ..) (List.length_replicate ..) (List.length_replicate ..) h1 h2 h1' h2'
+    smallReads_wf smallReads_le
+  exact ⟨ct, _, _, h⟩
+
+/-- hypotheses of the magic theorems are satisfiable -/
+example : (passDecrypt toyPrims [] [101, 103, 107, 33, 0]).1 = [] ∧ (passDecrypt toyPrims [] [101, 103, 107, 33, 0]).2 ≠ .ok :=
+  C03_pass_magic toyPrims [] _ (by decide)
+example : (keyDecrypt toyPrims [] [] [101, 103, 107, 17, 0]).1 = [] ∧ (keyDecrypt toyPrims [] [] [101, 103, 107, 17, 0]).2.1 ≠ .ok ∧
+    (keyDecrypt toyPrims [] [] [101, 103, 107, 17, 0]).2.2 = none :=
+  C03_key_magic toyPrims [] [] _ (by decide)
 
 end Kestrel
